@@ -50,7 +50,19 @@ def run(rep, tier, seed, proof_ok):
                 "keyword, starred argument of a tracked / untracked / builtin call, argument of a call whose result is called or whose "
                 "attribute is called, operand, comprehension, f-string, every statement kind), expected: the error code of the "
                 "offence, nothing executed, no store write; the well-formed twin of every placement must give the result and the "
-                "execution log of plain Python") % len(__import__("c11_positions").POSITIONS)
+                "execution log of plain Python; dynamic sweep: the offending call visible to the run-time checks only (nested dds.eval / "
+                "dds.keep under the path being kept, reached through a non-accepted helper module, a helper two calls deep, an alias, "
+                "getattr, a function object held as data or passed as an argument, a method of a foreign object: %d carriers) executed "
+                "under %d exception handlers free of BaseException (except Exception with a default / logging / tuple / specific class "
+                "first, contextlib.suppress, try-finally, re-raise, wrapping, else, retry loop, best-effort callback runner two calls "
+                "deep, swallowing context manager / decorator / generator, nested try; in the helper module, in the accepted function "
+                "making the call, in its accepted caller; none) in %d shapes (under one / two keeps, in the root, after / before a "
+                "sibling keep, in another module) entered by dds.eval and dds.keep, expected: the error code of the offence, execution "
+                "log, stored blobs and committed paths of plain execution stopping at the offence (or nothing at all), nothing "
+                "committed, dds.load and the data directory unchanged; twins (plain call, user exception for the handler) must give "
+                "result, log, blobs and paths of plain execution (quick: handlers x carriers and handlers x shapes; thorough: full product)"
+                ) % (len(__import__("c11_positions").POSITIONS), len(__import__("c11_dynamic").CARRIERS), len(__import__("c11_dynamic").HANDLERS),
+                     len(__import__("c11_dynamic").SHAPES))
     P = all_paths(3)
     cases = [[p] for p in P] + [list(t) for t in itertools.permutations(P, 2)]
     trip = list(itertools.permutations(P, 3))
@@ -99,12 +111,15 @@ def run(rep, tier, seed, proof_ok):
         c11_programs.run(rep, tier, seed, proof_ok, rng)
     except ImportError:
         rep.extra["program_part"] = "cycle / nested-eval / full-evaluation part not built yet"
-    pp, ps = rep.extra.get("program_part"), rep.extra.get("position_sweep", {})
+    pp, ps, ds = rep.extra.get("program_part"), rep.extra.get("position_sweep", {}), rep.extra.get("dynamic_sweep", {})
     if isinstance(pp, dict):
         rep.extra["input_distribution"].update({"call_graphs": pp["call_graphs"], "call_graphs_with_positions": pp["call_graphs_with_positions"],
                                                 "syntactic_positions": ps.get("positions"), "position_sweep_scenarios": ps.get("scenarios"),
                                                 "position_sweep_ill_formed_kinds": ps.get("ill_formed_kinds"),
-                                                "position_sweep_well_formed_kinds": ps.get("well_formed_kinds")})
+                                                "position_sweep_well_formed_kinds": ps.get("well_formed_kinds"),
+                                                "dynamic_sweep_scenarios": ds.get("scenarios"), "dynamic_sweep_handlers": ds.get("handlers"),
+                                                "dynamic_sweep_carriers": ds.get("carriers"), "dynamic_sweep_shapes": ds.get("shapes"),
+                                                "dynamic_sweep_by_kind_of_hidden_call": ds.get("by_kind")})
 
 
 def replay(path):
